@@ -5,6 +5,8 @@ import (
 	"errors"
 	"fmt"
 	"io"
+	"os"
+	"path/filepath"
 	"runtime"
 	"strings"
 	"sync"
@@ -344,6 +346,62 @@ func c08Mutate(t *rapid.T, text []byte) []byte {
 	return join()
 }
 
+// through the age command: armored input is accepted only in canonical form
+type c08CLI struct {
+	PlainLen int    `json:"plainLen"`
+	Text     []byte `json:"text"` // the (mutated) armored file
+	Stdin    bool   `json:"stdin"`
+}
+
+func c08CheckCLI(c c08CLI, st *stats.Run) error {
+	bin := os.Getenv("VERIF_BIN")
+	if bin == "" {
+		return nil
+	}
+	p := hx.ThePool()
+	f, plain := c02Base(c.PlainLen, 61)
+	canonical := refage.Armor(f.Bytes())
+	dir, err := os.MkdirTemp(".", "c08cli-")
+	if err != nil {
+		return pbt.Failf("C08/harness", "%v", err)
+	}
+	dir, _ = filepath.Abs(dir)
+	defer os.RemoveAll(dir)
+	os.WriteFile(filepath.Join(dir, "key.txt"), []byte(refage.Bech32Encode("AGE-SECRET-KEY-", p.X25519[0])+"\n"), 0o600)
+	args := []string{"-d", "-i", "key.txt"}
+	var stdin []byte
+	if c.Stdin {
+		stdin = c.Text
+	} else {
+		os.WriteFile(filepath.Join(dir, "in.age"), c.Text, 0o644)
+		args = append(args, "in.age")
+	}
+	same := string(c.Text) == canonical
+	st.Case(!same, stats.Hash(c.Text), "cli", fmt.Sprintf("cli:unmutated=%v", same), fmt.Sprintf("cli:stdin=%v", c.Stdin))
+	code, out, stderr := runCLI(dir, []string{"PATH=/nonexistent", "HOME=" + dir}, stdin, filepath.Join(bin, "age"), args...)
+	if code == -2 {
+		return nil
+	}
+	if same {
+		if code != 0 || out != string(plain) {
+			return pbt.Failf("C08/encode-not-decodable", "age -d rejects the canonical armor of a valid file: exit %d (%s)", code, trunc([]byte(stderr)))
+		}
+		return nil
+	}
+	if code != 0 {
+		st.Label("cli:rejected")
+		return nil
+	}
+	st.Label("cli:accepted")
+	if out != string(plain) {
+		return pbt.Failf("C08/non-canonical-accepted", "age -d accepted an altered armored file and produced %d bytes that are not the plaintext:\n%q", len(out), trunc(c.Text))
+	}
+	if norm := normaliseArmor(string(c.Text)); norm != canonical {
+		return pbt.Failf("C08/non-canonical-accepted", "age -d accepted text that is not the canonical armor of the file (beyond CRLF line ends and outer whitespace):\n text      %q\n canonical %q", trunc(c.Text), trunc([]byte(canonical)))
+	}
+	return nil
+}
+
 func TestC08(t *testing.T) {
 	s := pbt.Start(t, "C08")
 	defer s.Finish()
@@ -399,6 +457,15 @@ func TestC08(t *testing.T) {
 	pbt.Each(s, "decode-enum", func(func(c08Dec)) {}, dec)
 
 	// decoding: mutation of valid armor, under delivery schedules
+	pbt.Rapid(s, "decode-cli", s.N(250, 2000), func(t *rapid.T) c08CLI {
+		l := rapid.SampledFrom([]int{0, 1, 47, 100, 2000}).Draw(t, "len")
+		f, _ := c02Base(l, 61)
+		text := []byte(refage.Armor(f.Bytes()))
+		for i, n := 0, rapid.IntRange(0, 2).Draw(t, "nmut"); i < n; i++ {
+			text = c08Mutate(t, text)
+		}
+		return c08CLI{PlainLen: l, Text: text, Stdin: rapid.Bool().Draw(t, "stdin")}
+	}, func(c c08CLI) error { return c08CheckCLI(c, s.St) })
 	pbt.Rapid(s, "decode-mut", s.N(30000, 200000), func(t *rapid.T) c08Dec {
 		l := rapid.SampledFrom([]int{0, 1, 3, 47, 48, 49, 96, 100, 200, 2971, 2972, 4000}).Draw(t, "len")
 		text := []byte(refage.Armor(hx.PRG(rapid.Uint64Range(0, 50).Draw(t, "seed"), l)))
